@@ -237,6 +237,9 @@ def evaluate(pid, cases, oc=None, compare_outside_domain=False):
     if pid == 'C06':
         collection_route(oc, [(c, t, o) for c, t, o in zip(cases, texts, impl_obs)
                               if 'err' in o and not o['err'] and len(o.get('warns') or []) >= 2 and 'live_history' not in c])
+    if pid == 'C12':
+        nonstrict_route(oc, [(c, t, o) for c, t, o in zip(cases, texts, impl_obs)
+                             if 'err' in o and (o['err'] in ('MosMergeError', 'MosCompletedMergeError') or (not o['err'] and o['warns'])) and 'live_history' not in c])
     oc.rule = RULES[pid]
     return oc
 
@@ -439,6 +442,42 @@ def collection_route(oc, triples, limit=400):
                                    'impl': {'err': err, 'warns': ws, 'direct_warns': o['warns']}})
 
 
+def nonstrict_route(oc, triples, limit=500):
+    """C12, last clause: "a non-strict collection merge always runs to the end" - every message that fails or warns when
+    added directly, as the second of three documents (running order, message, roDelete) merged non-strictly: no
+    exception of any kind leaves merge(), and the roDelete behind the failing message is reached."""
+    import re, warnings
+    from . import impl
+    from mosromgr.moscollection import MosCollection
+    step = max(1, len(triples) // limit)
+    for c, (ro_text, msg_text), o in triples[::step]:
+        ro_text, msg_text = ro_text.replace('\r', '&#13;'), msg_text.replace('\r', '&#13;')
+        m = re.search(r'<roID>([^<]*)</roID>', ro_text)
+        if not m or '<mosromgrmeta>' in ro_text:
+            continue
+        rd = '<mos><mosID>m</mosID><ncsID>n</ncsID><messageID>999999999</messageID><roDelete><roID>%s</roID></roDelete></mos>' % m.group(1)
+        try:
+            with warnings.catch_warnings():
+                warnings.simplefilter('ignore')
+                mc = MosCollection.from_strings([ro_text, msg_text, rd], allow_incomplete=True)
+        except Exception:  # noqa: BLE001 - not a collection (other roID, unreadable message IDs): C11's business
+            continue
+        err = None
+        with warnings.catch_warnings():
+            warnings.simplefilter('ignore')
+            try:
+                mc.merge(strict=False)
+            except Exception as e:  # noqa: BLE001
+                err = impl.err_name(e)
+        oc.evaluations += 1
+        oc.count('nonstrict-collection-route')
+        if err is not None or not mc.completed:
+            oc.failing.append({'kind': 'add', 'label': c['label'] + ':via non-strict collection', 'cls': c['cls'], 'ro_text': ro_text, 'msg_text': msg_text,
+                               'nonstrict_route': True,
+                               'spec': 'a non-strict collection merge runs to the end: no exception leaves merge() and the roDelete after the failing message is applied',
+                               'impl': {'err': err, 'completed': bool(mc.completed), 'direct': {'err': o['err'], 'warns': o['warns']}}})
+
+
 def c07_extra(o):
     """C07 observations beyond the merge step itself: the `completed` accessor, the written-out and
     re-read document, and the refusal under -W error."""
@@ -475,6 +514,12 @@ def replay_add(pid, rec):
         oc2 = Outcome(pid)
         file_route(oc2, pid)
         return bool(oc2.failing), {'failing': [f['label'] for f in oc2.failing]}
+    if 'nonstrict_route' in rec:
+        oc2 = Outcome(pid)
+        o = _impl_one((rec['ro_text'], rec['msg_text']))
+        if 'err' in o:
+            nonstrict_route(oc2, [({'label': 'replay', 'cls': rec.get('cls', '?')}, (rec['ro_text'], rec['msg_text']), o)])
+        return bool(oc2.failing), {'failing': [f['impl'] for f in oc2.failing]}
     if 'route' in rec:
         oc2 = Outcome(pid)
         o = _impl_one((rec['ro_text'], rec['msg_text']))
